@@ -1117,7 +1117,7 @@ impl<'a> GeneratorState<'a> {
 
     fn generate_strobe_statement(&mut self, expr: &Expr, pos: usize) -> Result<(), Error> {
         match expr {
-            Expr::Identifier(name, _) => {
+            Expr::Identifier(name, _) if self.compiler_state.variables.contains_key(name) => {
                 let v = self.compiler_state.get_variable(name);
                 match v.var_type {
                     VariableType::CharPtr => {
